@@ -9,7 +9,7 @@ namespace Avo.Cleanup
 before labels are bound and the CFG is built; self-moves are pruned after
 binding and verification; liveness sees zero-extended 32-bit outputs. -/
 theorem compile_order : Avo.Gen.compileOrder =
-    ["Verify", "FunctionPass(PruneJumpToFollowingLabel)", "FunctionPass(PruneDanglingLabels)",
+    ["InstructionPass(VerifyMemOperands)", "FunctionPass(PruneJumpToFollowingLabel)", "FunctionPass(PruneDanglingLabels)",
      "FunctionPass(LabelTarget)", "FunctionPass(CFG)", "InstructionPass(ZeroExtend32BitOutputs)",
      "FunctionPass(Liveness)", "FunctionPass(AllocateRegisters)", "FunctionPass(BindRegisters)",
      "FunctionPass(VerifyAllocation)", "FunctionPass(EnsureBasePointerCalleeSaved)",
